@@ -67,6 +67,12 @@ class TimePattern(i_lib.TimePattern):
         int_minutes = int(minutes)
         return 0 <= int_minutes < 60
 
+    def copy(self):
+        new_pattern = TimePattern(None, None)
+        new_pattern._repr = self._repr
+        new_pattern._alternatives = list(self._alternatives)
+        return new_pattern
+
     def union(self, other):
         self._alternatives.extend(other._alternatives)
 
